@@ -170,6 +170,11 @@ func leftEdge(n Node) int {
 		return min(20, leftEdge(n.If))
 	case *Group:
 		return min(80, leftEdge(n.X))
+	case *Pred:
+		// a predicate directly on an order-by starts where the order-by starts
+		return min(Level(n), leftEdge(n.X))
+	case *Call:
+		return min(Level(n), leftEdge(n.Fn))
 	case *Path:
 		if len(n.Steps) > 0 {
 			return min(Level(n), leftEdge(n.Steps[0]))
@@ -287,6 +292,9 @@ func norm(n Node, inPath bool) Node {
 			case *Lambda, *Transform, *Regex:
 				s = wrap(s)
 			}
+			if _, isBlock := s.(*Block); !isBlock && i > 0 && leftEdge(s) < 100 {
+				s = wrap(s) // (an order-by at its left edge would take the steps before it as its sequence)
+			}
 			steps = append(steps, need(s, min))
 		}
 		if len(steps) == 1 && !keep {
@@ -350,7 +358,10 @@ func norm(n Node, inPath bool) Node {
 		if p, ok := x.(*Path); ok {
 			x = wrap(p)
 		}
-		if Level(x) < 100 {
+		if _, isSort := x.(*Sort); isSort {
+			// an order-by ends with its closing parenthesis: a predicate can
+			// follow it directly (seq^(k)[0] filters the sorted sequence)
+		} else if Level(x) < 100 {
 			x = wrap(x)
 		}
 		switch x.(type) {
